@@ -9,6 +9,7 @@ import (
 	"fmt"
 	"os"
 	"path/filepath"
+	"runtime"
 	"sync"
 	"testing"
 	"time"
@@ -73,7 +74,7 @@ func c14Run(u *vfUnit) {
 				if slow {
 					d := 4200 * time.Millisecond
 					if u.Index%24 == 3 {
-						d = 12500 * time.Millisecond // one unit: longer than a patience of ten seconds
+						d = 33 * time.Second // one unit: longer than a patience of ten seconds, or of half a minute
 					}
 					time.Sleep(d)
 				}
@@ -285,13 +286,40 @@ func c14Run(u *vfUnit) {
 				u.Violation("serve-end:"+kind.String(), label+": "+msg, nil)
 			}
 		}
+		// request server, one burst per unit: the application calls the server's exported Close while the burst is being
+		// served. Whatever that cuts off, no handler object is closed while a read or write on it is running, none is
+		// used after its Close, and each is closed once.
+		srvClose := kind == vfRS && bi == 4 && !eofAfterBurst
+		if srvClose {
+			label += "/server-Close-during-burst"
+			u.Count("bursts_with_server_close", 1)
+			bsent := vfGo(func() { rs.R.Send(stream) })
+			for spin := 0; spin < 200000; spin++ {
+				busy := false
+				for _, o := range store.Objs() {
+					if o.inflight.Load() > 0 {
+						busy = true
+					}
+				}
+				if busy {
+					break
+				}
+				runtime.Gosched()
+			}
+			rs.S.rs.Close()
+			rs.cEnd.ForceClose()
+			vfAwait(bsent, 60*time.Second)
+			if msg := rs.End(120 * time.Second); msg != "" {
+				u.Violation("serve-end:"+kind.String(), label+": "+msg, nil)
+			}
+		}
 		sent := vfGo(func() {
-			if !eofAfterBurst {
+			if !eofAfterBurst && !srvClose {
 				rs.R.Send(stream)
 			}
 		})
 		w, dump := vfDone, ""
-		if !eofAfterBurst {
+		if !eofAfterBurst && !srvClose {
 			w, dump = rs.R.WaitCount(base+len(burst), 120*time.Second)
 		}
 		<-sent
@@ -307,7 +335,7 @@ func c14Run(u *vfUnit) {
 			continue
 		}
 		resp := rs.R.All()[min(base, rs.R.Count()):]
-		if !eofAfterBurst && len(resp) < len(burst) {
+		if !eofAfterBurst && !srvClose && len(resp) < len(burst) {
 			u.Violation("burst-responses-missing:"+kind.String(), fmt.Sprintf("%s: the server ended the session after %d of %d responses although every request of the burst was well-formed", label, len(resp), len(burst)), witness)
 		}
 		for i, body := range resp {
@@ -343,13 +371,13 @@ func c14Run(u *vfUnit) {
 			}
 		}
 		hooks.Uninstall()
-		if !eofAfterBurst {
+		if !eofAfterBurst && !srvClose {
 			if msg := rs.End(120 * time.Second); msg != "" {
 				u.Violation("serve-end:"+kind.String(), label+": "+msg, witness)
 			}
 		}
 		// final content: every write present
-		for h := 0; h < nh && !readOnly; h++ {
+		for h := 0; h < nh && !readOnly && !srvClose; h++ {
 			var got []byte
 			if kind == vfOS {
 				got, _ = os.ReadFile(paths[h])
